@@ -165,10 +165,7 @@ Definition k_add : str := (k_op ++ [43])%N.
 Definition mem_triple (t : triple) (l : list triple) : bool :=
   existsb (fun u => leqb (fst (fst t)) (fst (fst u)) && Nat.eqb (snd (fst t)) (snd (fst u)) && leqb (snd t) (snd u)) l.
 Theorem sql_compat_refuted :
-  mem_triple (k_mod, 1, k_div_i)%nat (bad_table d_sqlite) = true      (* F5  c % (a // b) -> c % ROUND(..) * SIGN(a) * SIGN(b) *)
-  /\ mem_triple (k_mod, 1, k_div_i)%nat (bad_table d_generic) = true
-  /\ mem_triple (k_mul, 1, k_math_log)%nat (bad_table d_generic) = true   (* F5  a * (math.log b c) -> a * LOG10(c) / LOG10(b) *)
-  /\ mem_triple (k_concat, 0, k_add)%nat (bad_table d_sqlite) = true      (* C02-N7  d = b + c; f"{d}x" -> b + c || 'x' *)
+  mem_triple (k_concat, 0, k_add)%nat (bad_table d_sqlite) = true      (* C02-N7  d = b + c; f"{d}x" -> b + c || 'x' *)
   /\ mem_triple (k_concat, 2, k_lt)%nat (bad_table d_sqlite) = true.
 Proof. vm_compute. repeat split; reflexivity. Qed.
 Print Assumptions sql_compat_refuted.
@@ -179,8 +176,7 @@ Print Assumptions sql_compat_refuted.
    has -- a child that lies about its strength (F5: div_i, math.log).  The pattern hole now asks for strength 12
    (sqlite); the generic templates build the pattern with CONCAT( ). *)
 Theorem like_templates_fine :
-  forallb (fun d => forallb (fun t => negb (mem (fst (fst t)) concat_pattern_templates) || mem (snd t) dishonest_templates) (bad_table d))
-          [d_sqlite; d_generic] = true.
+  forallb (fun d => forallb (fun t => negb (mem (fst (fst t)) concat_pattern_templates)) (bad_table d)) [d_sqlite; d_generic] = true.
 Proof. vm_compute. reflexivity. Qed.
 Print Assumptions like_templates_fine.
 Example ex_like_templates_are_constructs :
@@ -208,6 +204,7 @@ Theorem repaired_classes_are_fine :
       (k_text_contains, 0, k_eq)%nat (* C02-N6 (a == b) | text.contains c  was  a = b LIKE ... *);
       (k_lt, 0, k_text_contains)%nat (* C02-N6 (a | text.contains c) < b  was  a LIKE ... < b *);
       (k_text_starts_with, 0, k_add)%nat; (k_mul, 1, k_text_ends_with)%nat;
+      (k_mod, 1, k_div_i)%nat (* F5 c % (a // b)  was  c % ROUND(..) * SIGN(a) * SIGN(b) *); (k_mul, 1, k_math_log)%nat; (k_div_i, 1, k_div_i)%nat;
       (k_text_starts_with, 1, k_add)%nat (* C02-N5 text.starts_with (b + c) a  was  a LIKE b + c || '%' *);
       (k_text_contains, 1, k_mul)%nat; (k_text_ends_with, 1, k_lt)%nat ] = true.
 Proof. vm_compute. reflexivity. Qed.
@@ -220,14 +217,10 @@ Print Assumptions repaired_classes_are_fine.
    FULL STATEMENT (false): for every template.  Known: div_i (default and sqlite), math.log (F5). *)
 Definition known_dishonest : list str := [tname_of [] [100;105;118;95;105]; tname_of [115;113;108;105;116;101] [100;105;118;95;105];
                                           tname_of [] [109;97;116;104;46;108;111;103]]%N.
-Theorem template_strength_honest_partial :
-  forallb (fun t => mem (tname t) known_dishonest || template_honest t) templates = true.
+(* FULL STRENGTH since /repo af135b8 (F5: div_i, sqlite div_i and math.log declare 11; before: `_partial` + `_refuted`) *)
+Theorem template_strength_honest : forallb template_honest templates = true.
 Proof. vm_compute. reflexivity. Qed.
-Print Assumptions template_strength_honest_partial.
-Theorem template_strength_honest_refuted :
-  forallb (fun n => existsb (fun t => leqb (tname t) n && negb (template_honest t)) templates) known_dishonest = true.
-Proof. vm_compute. reflexivity. Qed.
-Print Assumptions template_strength_honest_refuted.
+Print Assumptions template_strength_honest.
 
 (* every hole asks for at least what its position in the template text needs (all templates, all 12 dialects).
    Known: the right operand of the infix regex templates of postgres / glaredb (`{text} ~ {pattern}`).
@@ -236,14 +229,10 @@ Print Assumptions template_strength_honest_refuted.
 Definition known_insufficient : list str :=
   [tname_of [112;111;115;116;103;114;101;115] [114;101;103;101;120;95;115;101;97;114;99;104];
    tname_of [103;108;97;114;101;100;98] [114;101;103;101;120;95;115;101;97;114;99;104]]%N.
-Theorem hole_strength_sufficient_partial :
-  forallb (fun t => mem (tname t) known_insufficient || template_holes_sufficient t) templates = true.
+(* FULL STRENGTH since /repo 17f83f2 (C02-N9: `{text} ~ {pattern:10}`; before: `_partial` + `_refuted`) *)
+Theorem hole_strength_sufficient : forallb template_holes_sufficient templates = true.
 Proof. vm_compute. reflexivity. Qed.
-Print Assumptions hole_strength_sufficient_partial.
-Theorem hole_strength_sufficient_refuted :
-  forallb (fun n => existsb (fun t => leqb (tname t) n && negb (template_holes_sufficient t)) templates) known_insufficient = true.
-Proof. vm_compute. reflexivity. Qed.
-Print Assumptions hole_strength_sufficient_refuted.
+Print Assumptions hole_strength_sufficient.
 
 (* ---- the theorems over ALL expressions ---- *)
 
@@ -405,19 +394,12 @@ Proof.
 Qed.
 Print Assumptions date_format_itemwise.
 
-(* C02-N10 (a regression of /repo e3af91e, which made translate_literal double every quote): postgres, redshift, mysql,
-   duckdb and clickhouse still escape a quote of a literal chunk for SQL themselves, so the format VALUE the engine
-   receives has two quotes (duckdb: strftime(a, '%Y''''%m') renders 2020''03).
-   FULL STATEMENT (false): no dialect of date_tables escapes the quote twice. *)
-Theorem date_format_quote_escaped_twice_refuted :
-  existsb (fun r => quote_escaped_twice (snd r)) date_tables = true.
+(* FULL STRENGTH since /repo 66bf387 (C02-N10, a regression of e3af91e: the dialects escaped a quote of a literal chunk
+   for SQL although translate_literal escapes the whole format; duckdb strftime(a, '%Y''''%m') rendered 2020''03):
+   no dialect of date_tables escapes the quote twice *)
+Theorem date_format_quote_escaped_once : forallb (fun r => negb (quote_escaped_twice (snd r))) date_tables = true.
 Proof. vm_compute. reflexivity. Qed.
-Print Assumptions date_format_quote_escaped_twice_refuted.
-Theorem date_format_quote_partial :
-  forallb (fun r => negb (quote_escaped_twice (snd r)) || mem (fst (fst r)) [[112;111;115;116;103;114;101;115]; [114;101;100;115;104;105;102;116];
-     [109;121;115;113;108]; [100;117;99;107;100;98]; [99;108;105;99;107;104;111;117;115;101]]%N) date_tables = true.
-Proof. vm_compute. reflexivity. Qed.
-Print Assumptions date_format_quote_partial.
+Print Assumptions date_format_quote_escaped_once.
 Example ex_date_fmt_postgres :
   date_fmt [112;111;115;116;103;114;101;115]%N [37;89;45;37;109;32;97;116;32;37;45;72]%N    (* "%Y-%m at %-H" *)
   = Some [89;89;89;89;45;77;77;32;34;97;116;34;32;70;77;72;72;50;52]%N.                    (* YYYY-MM "at" FMHH24 *)
